@@ -61,7 +61,7 @@ func c10Draw(rt *rapid.T) c10Case {
 			k.NodeAnn[fmt.Sprintf(c10AnnKey, "ns1", "foo", c.Name)] = string(b)
 			desc = append(desc, "override:"+c.Name)
 		case "malformed":
-			k.NodeAnn[fmt.Sprintf(c10AnnKey, "ns1", "foo", c.Name)] = rapid.SampledFrom([]string{"{", "not json", `{"requests":{"cpu":"lots"}}`, `[]`}).Draw(rt, fmt.Sprintf("ann-%d-bad", i))
+			k.NodeAnn[fmt.Sprintf(c10AnnKey, "ns1", "foo", c.Name)] = rapid.SampledFrom([]string{"{", "not json", `{"requests":{"cpu":"lots"}}`, `[]`, `{"limits":"none"}`, `"500m"`}).Draw(rt, fmt.Sprintf("ann-%d-bad", i))
 			desc = append(desc, "malformed:"+c.Name)
 		case "other-eds":
 			b, _ := json.Marshal(c10Resources(rt, fmt.Sprintf("ann-%d-res", i)))
@@ -86,6 +86,15 @@ func c10Draw(rt *rapid.T) c10Case {
 	}
 	k.Desc = strings.Join(desc, ",")
 	return k
+}
+
+// c10Usable: the override annotation value exists and decodes into resource requirements.
+func c10Usable(val string) bool {
+	if val == "" {
+		return false
+	}
+	var r corev1.ResourceRequirements
+	return json.Unmarshal([]byte(val), &r) == nil
 }
 
 func c10RS(tpl corev1.PodTemplateSpec) *edsv1.ExtendedDaemonSetReplicaSet {
@@ -330,7 +339,9 @@ func runC10(k c10Case) (vs []mon.V, err error) {
 					inTpl = true
 				}
 			}
-			if _, over := k.NodeAnn[fmt.Sprintf(c10AnnKey, "ns1", "foo", sc.Name)]; over || !inTpl {
+			// an annotation that cannot be decoded into resource requirements is ignored when the pod is built
+			// (the pod then follows the setting), so it does not shield the container from the setting either
+			if c10Usable(k.NodeAnn[fmt.Sprintf(c10AnnKey, "ns1", "foo", sc.Name)]) || !inTpl {
 				continue
 			}
 			s2 := k.Setting.DeepCopy()
@@ -351,7 +362,7 @@ func runC10(k c10Case) (vs []mon.V, err error) {
 		// a setting that starts to apply and demands something the pod does not have
 		s := &edsv1.ExtendedDaemonsetSetting{ObjectMeta: metav1.ObjectMeta{Namespace: "ns1", Name: "late"}, Spec: edsv1.ExtendedDaemonsetSettingSpec{
 			Containers: []edsv1.ExtendedDaemonsetSettingContainerSpec{{Name: k.Template.Spec.Containers[0].Name, Resources: corev1.ResourceRequirements{Requests: corev1.ResourceList{corev1.ResourceCPU: resource.MustParse("777m")}}}}}}
-		if _, over := k.NodeAnn[key]; !over {
+		if !c10Usable(k.NodeAnn[key]) {
 			if out, _ := c10Outdated(c, rs, node, s, got); !out {
 				add("C10/round-trip/new-setting-not-detected", "a setting now applies and demands cpu=777m but the pod is still considered up to date")
 			}
